@@ -61,9 +61,11 @@ ApplyCmd(D, c) ==
     [] c.t = "CDN" ->
          IF \E i \in 1..Len(D.nodes) : D.nodes[i].t = c.a THEN Fails(D, "nodeexists")
          ELSE LET m == SameTcp(D.metas, c.a)
-                  id == IF m = 0 THEN D.maxNode + 1 ELSE D.metas[m].id IN
+                  \* the meta node's id is shared only while no data node carries it (data node ids are unique)
+                  share == m # 0 /\ NodeIdx(D.nodes, D.metas[m].id) = 0
+                  id == IF share THEN D.metas[m].id ELSE D.maxNode + 1 IN
               Ok([D EXCEPT !.nodes = InsertById(@, [id |-> id, h |-> c.h, t |-> c.a]),
-                           !.maxNode = IF m = 0 THEN @ + 1 ELSE @])
+                           !.maxNode = IF share THEN @ ELSE @ + 1])
     [] c.t = "UDN" ->
          LET i == NodeIdx(D.nodes, c.id) IN
          IF i = 0 THEN Fails(D, "nodenotfound")
